@@ -157,10 +157,10 @@ Proof.
     eapply entry_ok_view; [apply K| |apply (g_inv U s G n e Hn He)]. apply view_upd. apply K.
 Qed.
 
-Lemma lock_good : forall U s p, Good U s -> Good U (fst (lock_ s p)).
+Lemma lock_good : forall fx U s p, Good U s -> Good U (fst (lock_ fx s p)).
 Proof.
-  intros U s p G. unfold lock_. destruct (find_node s p) as [n|]; [|exact G].
-  destruct (node_locked s n); cbn; [exact G|now apply lock_structure].
+  intros fx U s p G. unfold lock_. destruct (find_node s p) as [n|]; [|exact G].
+  destruct (if fix_lockflag fx then flag_locked n else node_locked s n); cbn; [exact G|now apply lock_structure].
 Qed.
 
 (* ---------------------------------------------------------------- unlock_ *)
